@@ -92,9 +92,9 @@ def _wsdev(dev: str, expect: str) -> Dict[str, Any]:
     return {"module": "MC_WSock", "cfg": "MC_WSock_quick.cfg", "dev": dev, "expect": expect}
 
 
-PROPS["C10"] = {"monitor": "C10", "generators": [gen_ws.gen_c10], "design": WS_DESIGN,
+PROPS["C10"] = {"monitor": "C10", "generators": [gen_ws.gen_c10, from_tlc.gen_ws_from_graph], "design": WS_DESIGN,
                 "deviations": [_wsdev("DevAfterClose", "NoCrash")]}
-PROPS["C11"] = {"monitor": "C11", "generators": [gen_ws.gen_c11], "design": WS_DESIGN,
+PROPS["C11"] = {"monitor": "C11", "generators": [gen_ws.gen_c11, from_tlc.gen_ws_from_graph], "design": WS_DESIGN,
                 "deviations": [_wsdev("DevCodeLost", "DisconnectCode"), _wsdev("DevConnectedEarly", "NoStrayFrames")]}
 PROPS["C12"] = {"monitor": "C12", "generators": [gen_asgi.gen_c12],
                 "design": [{"module": "Asgi", "cfg": "MC_Asgi.cfg"}]}
@@ -119,6 +119,23 @@ def gen_c16(tier, rng):
 
 
 PROPS["C16"] = {"monitor": "C16", "generators": [gen_c16], "workers": ["pair"]}
+
+
+def gen_everything_else(tier, rng):
+    """C04 quantifies over every client input: the families written for the other connection-level properties
+    are client inputs too (a crash in one of them went unnoticed until the worker comparison happened to show
+    it - F04e).  Quick tier: a seeded sample of each family; thorough: all of them."""
+    pools = [gen_h1.gen_c01, gen_h1.gen_c02, gen_h1.gen_c03, gen_h1.gen_c07, gen_h2.gen_h2_basic, gen_h2.gen_flow,
+             gen_h2.gen_release, gen_asgi.gen_c12, from_tlc.gen_h2_from_spec, from_tlc.gen_h2_from_graph,
+             from_tlc.gen_ws_from_graph]
+    for gen in pools:
+        scripts = [s for s in gen(tier, rng) if "variants" not in s]
+        if tier == "quick" and len(scripts) > 60:
+            scripts = rng.sample(scripts, 60)
+        yield from scripts
+
+
+PROPS["C04"]["generators"] = PROPS["C04"]["generators"] + [gen_everything_else]
 PROPS["C17"] = {"monitor": "C17", "adapter": "c17",
                 "design": [{"module": "Wsgi", "cfg": "MC_Wsgi.cfg"}],
                 "technique": "TLA+ oracle (Wsgi.tla) model-checked by TLC + TLC validation of real executions of every enumerated case"}
